@@ -167,6 +167,16 @@ package transports
 //@     assert [C02.closepacket] packetData.Type == packet.CLOSE && calls(Transport.OnPacket) == $i
 
 // ---- polling discipline (C11), payload limit (C10) --------------------------------------------------------
+// a request for a polling session is a poll (GET), a data request (POST), or is answered 500 at once - every request gets
+// exactly one of the three
+//@ func (*polling).OnRequest(ctx)
+//@   props C11, C05
+//@   requires p != nil && p.Transport != nil && ctxOK(ctx)
+//@   modifies *
+//@   let m = ret((*types.HttpContext).Method, 1)
+//@   ensures [C11.dispatch.get]   m == "GET" ==> calls((*polling).onPollRequest) == 1 && calls((*polling).onDataRequest) == 0 && calls((*types.HttpContext).Write) == 0
+//@   ensures [C11.dispatch.post]  m == "POST" ==> calls((*polling).onDataRequest) == 1 && calls((*polling).onPollRequest) == 0 && calls((*types.HttpContext).Write) == 0
+//@   ensures [C11.dispatch.other] m != "GET" && m != "POST" ==> calls((*polling).onPollRequest) == 0 && calls((*polling).onDataRequest) == 0 && calls((*types.HttpContext).Write) == 1 && arg((*types.HttpContext).SetStatusCode, 1, statusCode) == 500
 //@ func (*polling).onPollRequest(ctx)
 // the outstanding poll and data request are recorded and cleared by the request handlers and the writer only; the pending
 // close by DoClose, the poll handler and the sender only
